@@ -34,6 +34,10 @@ def run(ctx):
     if not puts or not lists or not disc or not nexts:
         ctx.missing('C13.R1', 'hub_sync: put/list/discover/loop')
     puts = sorted(puts, key=lambda x: x[0])
+    from rules.hub import put_arg_slots
+    PS = put_arg_slots(F)
+    if PS is None:
+        ctx.missing('C13.R2', 'HubClient::put parameters (path: &str, expected: Option<[u8; 32]>, local: &Path, hash: [u8; 32])')
     pb, pt = puts[0]
     put_blocks = {x[0] for x in puts}
     loops = cfg.loops()
@@ -44,6 +48,8 @@ def run(ctx):
     for n, nt in nexts:
         if n == nb:
             io = fl.origins(nt['args'][0])
+            if any(x.kind == 'call' and x.key != 'meta::discover_local_fingerprints' for x in io):
+                io = iterated_collection(fl, n)
             if any(x.kind == 'call' and x.key == 'meta::discover_local_fingerprints' for x in io) and \
                not any(x.kind == 'call' and x.key != 'meta::discover_local_fingerprints' for x in io):
                 it_ok = True
@@ -75,9 +81,9 @@ def run(ctx):
     args_ok = True
     bad_put = None
     for pb_, pt_ in puts:
-        rel_o = fl.origins(pt_['args'][1])
-        file_o = fl.origins(pt_['args'][3])
-        hash_o = fl.origins(pt_['args'][4])
+        rel_o = fl.origins(pt_['args'][PS['rel']])
+        file_o = fl.origins(pt_['args'][PS['local']])
+        hash_o = fl.origins(pt_['args'][PS['hash']])
         joined = False
         for o in file_o:
             if o.kind == 'call' and o.key == 'std::path::Path::join':
@@ -95,7 +101,7 @@ def run(ctx):
     if p is None:
         ctx.missing('C13.R2', 'hub::HubClient::put')
     pfl = flow_of(p)
-    local_i = param_index(p, 'local') or 4
+    local_i = PS['local'] + 1
     req = None
     for bi in pfl.cfg.reachable():
         for st in p.blocks[bi]['stmts']:
@@ -130,12 +136,15 @@ def run(ctx):
     # ---- R3
     ok_e, f_e, t_e = set(), set(), set()
     all_ok = True
+    lost_names, won_names = put_reply_meaning(F, p)
     for pb_, _ in puts:
         oc = fl.outcomes(pb_)
         all_ok = all_ok and bool(oc.get('Ok'))
         ok_e |= oc.get('Ok', set())
-        f_e |= oc.get('false', set())
-        t_e |= oc.get('true', set())
+        for nme in lost_names:
+            f_e |= oc.get(nme, set())
+        for nme in won_names:
+            t_e |= oc.get(nme, set())
     if not all_ok:
         ok_e = set()
     oks = ok_assign_blocks(b, 'Ok')
@@ -180,6 +189,53 @@ def run(ctx):
     ctx.check(hide, 'C13.R4', 'serve:List-hides-only-.copia', 'the listing drops an entry only when p.starts_with(".copia")',
               'the List arm hides something else than the .copia control directory (%s)' % why, 'src/bin/copia/serve.rs (serve::serve)')
     r5(ctx, F)
+
+
+def put_reply_meaning(F, p):
+    """(outcome names of HubClient::put's Ok payload that mean "the CAS was lost", names that mean "committed"): the payload is
+    the hub's `committed` flag itself (false / true), or a value of a crate enum chosen under the false / true edge of that flag"""
+    pfl = flow_of(p)
+    cfg = pfl.cfg
+    lost, won = set(), set()
+    # edges of the tests of PutResult.committed
+    c_true, c_false = set(), set()
+    for bi in cfg.reachable():
+        t = p.blocks[bi]['term']
+        if t['k'] == 'switch' and t['on']['k'] != 'const':
+            pr = t['on']['p']['proj']
+            direct = any(isinstance(e, dict) and e.get('name') == 'committed' for e in pr)
+            via = False
+            if not pr:
+                via = any(tuple(o.path)[-1:] == ('committed',) for o in pfl.origins(t['on']) if o.kind != 'comb') and p.local_ty(t['on']['p']['l']) == 'bool'
+            if direct or via:
+                for v, tgt in t['targets']:
+                    (c_false if v == 0 else c_true).add((bi, tgt, v))
+                (c_true if [v for v, _ in t['targets']] == [0] else c_false).add((bi, t['otherwise'], 'otherwise'))
+    for ob in ok_assign_blocks(p, 'Ok'):
+        for st in p.blocks[ob]['stmts']:
+            rv = st['rv']
+            if not (rv['k'] == 'agg' and rv.get('vname') == 'Ok' and rv['ops']):
+                continue
+            os_ = [o for o in pfl.origins(rv['ops'][0]) if o.kind != 'comb']
+            if os_ and all(tuple(o.path)[-1:] == ('committed',) for o in os_):
+                lost.add('false')
+                won.add('true')
+                continue
+            names = set()
+            for o in os_:
+                if o.kind == 'agg' and '::' in str(o.key):
+                    names.add(str(o.key).split('::')[-1])
+                elif o.kind == 'const' and o.key in (0, 1, True, False):
+                    names.add('true' if o.key else 'false')
+            if not names:
+                continue
+            if c_false and cfg.edges_guard(c_false, ob):
+                lost |= names
+            elif c_true and cfg.edges_guard(c_true, ob):
+                won |= names
+    if not lost and not won:
+        lost, won = {'false'}, {'true'}
+    return lost, won
 
 
 def _is_control_test(fl, t):
